@@ -53,6 +53,12 @@ def pmap(fn, items, procs=None):
     procs = procs or min(16, os.cpu_count() or 1)
     if procs <= 1 or len(items) < 4:
         return [fn(i) for i in items]
+    # objects inherited from the parent (z3 ASTs of the proof phase in particular) must never be finalised inside a forked worker:
+    # z3's reference counting after fork can stall for seconds. Freeze the parent's heap so the children's cyclic GC ignores it.
+    import gc
+
+    gc.collect()
+    gc.freeze()
     ctx = mp.get_context("fork")
     with ctx.Pool(procs) as pool:
         return pool.map(fn, items, chunksize=max(1, len(items) // (procs * 8)))
